@@ -27,6 +27,7 @@ import (
 func init() {
 	vs.RegisterHarness("VerifC05Assign", VerifC05Assign)
 	vs.RegisterHarness("VerifC05EndBlockRetry", VerifC05EndBlockRetry)
+	vs.RegisterHarness("VerifC05EndBlockTwoRetries", VerifC05EndBlockTwoRetries)
 	vs.RegisterHarness("VerifC05RequestSigning", VerifC05RequestSigning)
 }
 
@@ -280,12 +281,17 @@ func VerifC05Assign() {
 	vs.Reach("assigned-two", sg.t == 2)
 }
 
-// VerifC05EndBlockRetry: the end-block retry of timed-out signings under the fault schedule.
-func VerifC05EndBlockRetry() {
+// VerifC05EndBlockRetry: the end-block retry of one timed-out signing under the fault schedule.
+func VerifC05EndBlockRetry() { c05EndBlock(1) }
+
+// VerifC05EndBlockTwoRetries: two timed-out signings of the same group retried in one block: the pairs
+// consumed by the first retry are never handed to the second; a failing retry (either one) leaves no trace.
+func VerifC05EndBlockTwoRetries() { c05EndBlock(2) }
+
+func c05EndBlock(nS int) {
 	vs.AssumeHashScalars()
 	e := c05Setup()
 	nAddr := vs.Param("addrs")
-	nS := vs.Param("signings")
 	st := c05AssignQueues(e, nAddr)
 	sg := c05BuildSign(e, nAddr, vs.Param("max_threshold"), nS)
 	f := c05Inject(e, st, vs.Param("faults"))
@@ -295,8 +301,12 @@ func VerifC05EndBlockRetry() {
 	var exps []types.SigningExpiration
 	for s := 0; s < nS; s++ {
 		id := tss.SigningID(s + 1)
+		// attempt numbers 1..200 (MaxSigningAttempt itself stays arbitrary). The bound keeps the low byte
+		// below 0xff: DeleteInterimSigningData iterates over a key prefix that ends with the attempt number
+		// and storetypes.PrefixEndBytes forks once per trailing 0xff byte.
 		attempts[s] = vs.U64("current_attempt")
-		vs.Assume(attempts[s] >= 1 && attempts[s] < c05AttemptBound)
+		vs.Assume(attempts[s] >= 1)
+		vs.Assume(attempts[s] <= 200)
 		c05StoreSigning(e, id, attempts[s], vs.Bytes("message", 4))
 		expired := vs.U64("expired_height")
 		vs.Assume(expired <= uint64(sg.height))
